@@ -1138,24 +1138,12 @@ theorem cond_loop (cls : Cls) (kvs : List (Str × Val)) (name k f op : Str) (v :
       · intro x hx; apply h2; simpa [hrj] using hx
     | _ => rw [hrj] at hd; simp [isDict] at hd
 
-/-- a condition step applied to a non-empty list: `[*]` is supplied -/
+/-- a condition step applied to a list (an empty one too — fix C06-e): `[*]` is supplied -/
 theorem find_cond_on_list (fuel : Nat) (root : Val) (entry rl : Bool) (q : Pos) (found tok k op : Str) (v : CondVal)
-    (rest : List Str) (lc : Cls) (xs : List Val) (hq : getAt root q = some (.list lc xs)) (hne : xs ≠ [])
+    (rest : List Str) (lc : Cls) (xs : List Val) (hq : getAt root q = some (.list lc xs))
     (hs : splitNameIndex tok = .ok ([], .cond k op v)) (hk : k ≠ sTextFn) :
     findD (fuel + 1) root [] false entry (tok :: rest) (.at q) rl found
       = findD fuel root [] false false (bracket ['*'] :: tok :: rest) (.at q) rl found := by
-  cases xs with
-  | nil => exact absurd rfl hne
-  | cons x xs =>
-    rw [findD]
-    simp only [Bool.false_and, Bool.false_eq_true, if_false, valOf_at, hq, hs, List.isEmpty_nil,
-      Idx.truthy, Bool.not_true, Bool.and_false, hk]
-
-/-- a condition step applied to an empty list: `IndexError` -/
-theorem find_cond_on_empty (fuel : Nat) (root : Val) (entry rl : Bool) (q : Pos) (found tok k op : Str) (v : CondVal)
-    (rest : List Str) (lc : Cls) (hq : getAt root q = some (.list lc []))
-    (hs : splitNameIndex tok = .ok ([], .cond k op v)) (hk : k ≠ sTextFn) :
-    findD (fuel + 1) root [] false entry (tok :: rest) (.at q) rl found = .error .IndexError := by
   rw [findD]
   simp only [Bool.false_and, Bool.false_eq_true, if_false, valOf_at, hq, hs, List.isEmpty_nil,
     Idx.truthy, Bool.not_true, Bool.and_false, hk]
@@ -1166,10 +1154,10 @@ structure FieldKey (k : Str) : Prop where
   cond : CondKey k
   notText : k ≠ sTextFn
 
-/-- `name[k op v]/f` from the root, non-empty record list -/
+/-- `name[k op v]/f` from the root -/
 theorem cond_find (cls : Cls) (kvs : List (Str × Val)) (name k f opx op vq v : Str) (lc : Cls) (rs : List Val) (rl : Bool)
     (hname : PlainKey name) (hk : FieldKey k) (hf : PlainKey f) (hop : OpSpell opx op) (hlit : LitSpell vq v)
-    (hv : PlainLit v) (hl : lookup name kvs = some (.list lc rs)) (hrs : ∀ r ∈ rs, isDict r = true) (hne : rs ≠ [])
+    (hv : PlainLit v) (hl : lookup name kvs = some (.list lc rs)) (hrs : ∀ r ∈ rs, isDict r = true)
     (hg : ∀ c kvs' kv, Val.dict c kvs' ∈ rs → lookup k kvs' = some kv → textGuard kv (.str v) = false)
     (fuel : Nat) (hfuel : fuel ≥ rs.length + 10) :
     ∃ r, findD fuel (.dict cls kvs) [] false true [name ++ bracket (k ++ opx ++ vq), f] (.at []) rl slash
@@ -1188,29 +1176,12 @@ theorem cond_find (cls : Cls) (kvs : List (Str × Val)) (name k f opx op vq v : 
   have hqq : getAt (.dict cls kvs) ([] ++ [Seg.key name]) = some (.list lc rs) := getAt_root_key cls kvs name _ hl
   rw [find_keycond_step (g + 2) _ true rl [] slash _ name k op (.str v) [f] cls kvs _ rfl hs0 hname.ne hname.notUp
     hname.keyTok.notStar hl]
-  rw [find_cond_on_list (g + 1) _ false rl _ _ _ k op (.str v) [f] lc rs hqq hne hs1 hk.notText]
+  rw [find_cond_on_list (g + 1) _ false rl _ _ _ k op (.str v) [f] lc rs hqq hs1 hk.notText]
   rw [find_star_step g _ false rl _ _ _ _ lc rs hqq split_star]
   apply cond_loop cls kvs name k f op (.str v) rs rl _ _ (by simp) hrs _ g (by omega)
   intro j c kvs' hj fu hfu
   exact cond_elem cls kvs name k f op _ _ (.str v) lc rs j rl c kvs' hname hk.plain hk.notText hf.keyTok hl hj hs1 rfl hs2
     hopc (fun kv hkv => hg c kvs' kv (List.mem_of_getElem? hj) hkv) fu hfu
-
-/-- `name[k op v]/f` on an empty record list: the engine raises `IndexError` (a miss for `get`) -/
-theorem cond_find_empty (cls : Cls) (kvs : List (Str × Val)) (name k f opx op vq v : Str) (lc : Cls) (rl : Bool)
-    (hname : PlainKey name) (hk : FieldKey k) (hop : OpSpell opx op) (hlit : LitSpell vq v)
-    (hv : PlainLit v) (hl : lookup name kvs = some (.list lc [])) (fuel : Nat) (hfuel : fuel ≥ 2) :
-    findD fuel (.dict cls kvs) [] false true [name ++ bracket (k ++ opx ++ vq), f] (.at []) rl slash
-      = .error .IndexError := by
-  obtain ⟨g, rfl⟩ : ∃ g, fuel = g + 2 := ⟨fuel - 2, by omega⟩
-  have hopc := opSpell_canon hop
-  have hs0 := split_cond name k opx op vq v (Or.inr hname) hk.cond hop hlit hv
-  have hs1 : splitNameIndex (bracket (k ++ op ++ ['\''] ++ condValStr (.str v) ++ ['\''])) = .ok ([], .cond k op (.str v)) := by
-    have := split_cond [] k op op _ v (Or.inl rfl) hk.cond hopc (.sq v) hv
-    simpa [condValStr, List.append_assoc] using this
-  have hqq : getAt (.dict cls kvs) ([] ++ [Seg.key name]) = some (.list lc []) := getAt_root_key cls kvs name _ hl
-  rw [find_keycond_step (g + 1) _ true rl [] slash _ name k op (.str v) [f] cls kvs _ rfl hs0 hname.ne hname.notUp
-    hname.keyTok.notStar hl]
-  exact find_cond_on_empty g _ false rl _ _ _ k op (.str v) [f] lc hqq hs1 hk.notText
 
 /-- `name/k[text() op v]/../f` from the root -/
 theorem textform_find (cls : Cls) (kvs : List (Str × Val)) (name k f opx op vq v : Str) (lc : Cls) (rs : List Val) (rl : Bool)
@@ -1297,13 +1268,8 @@ theorem cond_api (cls : Cls) (kvs : List (Str × Val)) (name k f opx op vq v : S
   have hpc : hasPathChar xp = true := hasPathChar_slash _ _
   have htok : tokenize xp = [name ++ bracket (k ++ opx ++ vq), f] :=
     tokenize_keybr_field name _ f hname hf (fun c hc => (hch c hc).1) (fun c hc => (hch c hc).2)
-  by_cases hne : rs = []
-  · subst hne
-    have := select_api_err cls kvs xp _ d fuel hq hpc htok
-      (fun rl => cond_find_empty cls kvs name k f opx op vq v lc rl hname hk hop hlit hv hl fuel (by omega))
-    simpa [vals, somes] using this
-  · exact select_api cls kvs xp _ vals d fuel hq hpc htok
-      (fun rl => cond_find cls kvs name k f opx op vq v lc rs rl hname hk hf hop hlit hv hl hrs hne hg fuel hfuel)
+  exact select_api cls kvs xp _ vals d fuel hq hpc htok
+    (fun rl => cond_find cls kvs name k f opx op vq v lc rs rl hname hk hf hop hlit hv hl hrs hg fuel hfuel)
 
 theorem tokenize_textform (name k e f : Str) (hname : PlainKey name) (hk : PlainKey k) (hf : PlainKey f)
     (he : ∀ c ∈ e, c ≠ ']' ∧ c ≠ '/') :
